@@ -95,7 +95,7 @@ theorem ainv_step (life : Nat) {g g' : G} {t : Tid} (he : EInv life g) (hi : AIn
     have ha := hi.atSet t hpc
     obtain ⟨_, _, s3, s4, _⟩ := he.atSet t hpc
     have hRq : ∀ r, (({ g with store := fun k' => if k' = k then some (t, g.now + life) else g.store k', vals := fun k' => if k' = k then some (recorded g.keep (g.threads t).req.resp) else g.vals k' }.setThread t
-          { g.threads t with pc := .atUnlock, out := .own, stored := true }).threads r).req = (g.threads r).req := by
+          { g.threads t with pc := .atUnlock, out := .own, stored := true, setAt := g.now }).threads r).req = (g.threads r).req := by
       intro r; by_cases hrt : r = t
       · subst hrt; simp
       · simp [setThread_threads_ne _ _ hrt]
